@@ -127,6 +127,14 @@ def modules(tier, nonfinite=False):
         for f in gen.forests(n, ["a", "long_name"], ["g", "long_name"], [1]):
             if any(k == "long_name" for k, _ in f) or n == 3:
                 yield "tree-long", f
+    # empty and degenerate containers
+    for v in ([], [[]], [[], [1]], [[[]]], enc(frozenset()), [enc(frozenset())], enc(frozenset([frozenset()])),
+              [1, [], "a b"], enc(impl.Quantity([], "m")), enc(impl.Quantity(frozenset([1]), "m"))):
+        yield "empty", [["k", v], ["j", 1]]
+        yield "empty-in-group", [["g", G([["k", v]])], ["o", O([])]]
+    yield "blocks-only", [["g", G([])], ["o", O([["g", G([])]])], ["g", G([["o", O([])]])]]
+    yield "long-key", [["K" * 30, "x y"], ["k", [enc("a b")] * 12], ["k" * 25, 1.5]]
+    yield "long-key-block", [["g" * 30, G([["K" * 30, ["abc"] * 10]])], ["o", O([["k", 1]])]]
     # three-deep list, mixed
     yield "deep", [["k", [1, [2, [3, [4]]]]]]
     yield "mixed", [["a", 1], ["a", "x y"], ["g", G([["a", enc(dt.date(2001, 1, 1))], ["a", [1, 2]]])],
